@@ -4,7 +4,8 @@ import sys, os
 sys.path.insert(0, os.path.dirname(os.path.abspath(__file__)))
 import vlib
 vlib.regen()
-ok, log = vlib.make(sys.argv[1:], timeout=3000)
+import os as _os
+ok, log = vlib.make(sys.argv[1:], timeout=int(_os.environ.get('MK_TIMEOUT', '300')))
 lines = [l for l in log.splitlines() if not any(w in l for w in ('ambiguous-paths', 'Warning:', 'New coercion', 'COQDEP', 'Finite] : Rbar'))]
 print('\n'.join(lines[-60:]))
 print('OK' if ok else 'FAILED')
